@@ -29,12 +29,17 @@ func ZZ_C20_defaults() {
 		}
 		return 1, nil
 	}
-	q := NewObject(ObjectConfig{Name: "Query", Fields: Fields{
-		"f": &Field{Type: Int, Resolve: scribble, Args: FieldConfigArgument{
+	fArgs := func() FieldConfigArgument {
+		return FieldConfigArgument{
 			"filter": &ArgumentConfig{Type: in, DefaultValue: mkDefault()},
 			"l":      &ArgumentConfig{Type: NewList(Int), DefaultValue: []interface{}{1, 2}},
 			"k":      &ArgumentConfig{Type: Int},
-		}},
+		}
+	}
+	item := NewObject(ObjectConfig{Name: "Item", Fields: Fields{"f": &Field{Type: Int, Resolve: scribble, Args: fArgs()}}})
+	q := NewObject(ObjectConfig{Name: "Query", Fields: Fields{
+		"f":     &Field{Type: Int, Resolve: scribble, Args: fArgs()},
+		"items": &Field{Type: NewList(item), Resolve: func(p ResolveParams) (interface{}, error) { return []interface{}{1, 2}, nil }},
 	}})
 	schema, err := NewSchema(SchemaConfig{Query: q})
 	zzAssert(err == nil, "schema")
@@ -72,6 +77,16 @@ func ZZ_C20_defaults() {
 			}},
 		{"query($k: Int){ a: f(filter: {limit: $k}) b: f(filter: {sub: [1, $k]}) }", func() map[string]interface{} { return map[string]interface{}{"k": k} }, func() []map[string]interface{} {
 			return []map[string]interface{}{{"filter": inDefaults(map[string]interface{}{"limit": k}), "l": defL}, {"filter": inDefaults(map[string]interface{}{"sub": []interface{}{1, k}}), "l": defL}}
+		}},
+		// one field plan invoked for every element of a list
+		{"query($k: Int){ items { f(filter: {sub: [1, $k], tags: [\"x\"]}, l: [$k, 2]) } }", func() map[string]interface{} { return map[string]interface{}{"k": k} }, func() []map[string]interface{} {
+			one := func() map[string]interface{} {
+				return map[string]interface{}{"filter": inDefaults(map[string]interface{}{"sub": []interface{}{1, k}, "tags": []interface{}{"x"}}), "l": []interface{}{k, 2}}
+			}
+			return []map[string]interface{}{one(), one()}
+		}},
+		{"{ items { f } }", nil, func() []map[string]interface{} {
+			return []map[string]interface{}{{"filter": def, "l": defL}, {"filter": def, "l": defL}}
 		}},
 	}
 	tc := cases[zzChoice("case", len(cases))]
